@@ -226,6 +226,7 @@ static int updateLevelCorrection(KSI_Signature *sig, KSI_uint64_t rootLevel,
 	KSI_LIST(KSI_TLV) *tlvList = NULL;
 	size_t i;
 	KSI_AggregationHashChain *aggrFromTlv = NULL;
+	int levelApplied = 0;
 
 	if (sig == NULL || calcLevelCorrection == NULL) {
 		res = KSI_INVALID_ARGUMENT;
@@ -291,9 +292,8 @@ static int updateLevelCorrection(KSI_Signature *sig, KSI_uint64_t rootLevel,
 		KSI_pushError(sig->ctx, res, NULL);
 		goto cleanup;
 	}
-	newLvl = NULL;
-	KSI_Integer_free(oldLvl);
-	oldLvl = NULL;
+	/* The old value is kept until the TLV is updated as well, see cleanup. */
+	levelApplied = 1;
 
 
 	/* Replace the the updated aggregation hash chain in the signature base TLV. */
@@ -354,8 +354,17 @@ static int updateLevelCorrection(KSI_Signature *sig, KSI_uint64_t rootLevel,
 	}
 	newTlv = NULL;
 
+	/* Both the object and the TLV are updated, the old value is not needed any more. */
+	levelApplied = 0;
+	newLvl = NULL;
+	KSI_Integer_free(oldLvl);
+
 	res = KSI_OK;
 cleanup:
+	if (levelApplied) {
+		/* Do not leave the level correction changed when the TLV could not be updated. */
+		KSI_HashChainLink_setLevelCorrection(link, oldLvl);
+	}
 	KSI_Integer_free(newLvl);
 	KSI_TLV_free(newTlv);
 	KSI_AggregationHashChain_free(aggrFromTlv);
@@ -1150,23 +1159,22 @@ int KSI_SignatureBuilder_close(KSI_SignatureBuilder *builder, KSI_uint64_t rootL
 		}
 	}
 
-	if (rootLevel != 0) {
-		res = addRootLevel(builder->sig, rootLevel);
-		if (res != KSI_OK) {
-			KSI_pushError(builder->ctx, res, NULL);
-			goto cleanup;
-		}
-	}
-
-	KSI_LOG_logTlv(builder->ctx, KSI_LOG_DEBUG, "Signature", builder->sig->baseTlv);
-
 	if (!builder->noVerify) {
-		/* Verify the signature. */
+		/* Verify the signature. The root level is applied to the clone first, so that
+		 * the builder is left intact (and close can be repeated) if anything fails. */
 
 		res = KSI_Signature_clone(builder->sig, &clone);
 		if (res != KSI_OK) {
 			KSI_pushError(builder->ctx, res, NULL);
 			goto cleanup;
+		}
+
+		if (rootLevel != 0) {
+			res = addRootLevel(clone, rootLevel);
+			if (res != KSI_OK) {
+				KSI_pushError(builder->ctx, res, NULL);
+				goto cleanup;
+			}
 		}
 		context.signature = clone;
 
@@ -1181,6 +1189,17 @@ int KSI_SignatureBuilder_close(KSI_SignatureBuilder *builder, KSI_uint64_t rootL
 			goto cleanup;
 		}
 	}
+
+	/* This is the last step that may fail; it does not modify the signature on failure. */
+	if (rootLevel != 0) {
+		res = addRootLevel(builder->sig, rootLevel);
+		if (res != KSI_OK) {
+			KSI_pushError(builder->ctx, res, NULL);
+			goto cleanup;
+		}
+	}
+
+	KSI_LOG_logTlv(builder->ctx, KSI_LOG_DEBUG, "Signature", builder->sig->baseTlv);
 
 	*sig = builder->sig;
 	builder->sig = NULL;
